@@ -47,7 +47,7 @@ package rpm
 //@   loop 0
 //@     invariant [C06] no-failure-so-far: !ghostFlag("failed")
 //@     invariant [C07] no-clock-so-far: implies(!old(info.MTime.IsZero()), !ghostFlag("clockRead"))
-//@     invariant [C11 C12] plan-still-fresh: !inlined() || nfpm.SpecPlanOK(info.Contents, !old(info.MTime.IsZero()))
+//@     invariant [C01 C04 C05 C11 C12] plan-still-fresh: !inlined() || nfpm.SpecPlanOK(info.Contents, !old(info.MTime.IsZero()))
 //@     invariant [C01 C03 C08] plan-entries-complete: inlined() || files.SpecPlanInputOK(info.Contents, !old(info.MTime.IsZero()))
 //
 //@ spec func itemLines(items []string, n int) string {
